@@ -59,17 +59,26 @@ func runC20(rng *rand.Rand, scale int, out string, shards int, seed int64, corpu
 		if scale == 0 {
 			break // replays: corpus only
 		}
-		type exp struct{ mode, val string }
+		type exp struct{ mode, val, text string }
 		var exps []exp
 		for _, m := range defModes {
-			exps = append(exps, exp{m, ""})
+			exps = append(exps, exp{m, "", ""})
 		}
 		for _, v := range extraVals[s.Name] {
-			exps = append(exps, exp{"D", v}, exp{"F", v})
+			exps = append(exps, exp{"D", v, ""}, exp{"F", v, ""})
 		}
+		for _, t := range gluedTexts[s.Name] {
+			exps = append(exps, exp{"D", "", t}, exp{"F", "", t}, exp{"N", "", t})
+		}
+		s0 := s
 		for _, e := range exps {
 			m := e.mode
+			s := s0
+			if e.text != "" {
+				s.Text = e.text
+			}
 			pc := makePlanted(s, m)
+			pc.Text = s.Text
 			if e.val != "" {
 				pc = makePlantedValue(s, m, e.val)
 			}
@@ -99,6 +108,8 @@ func runC20(rng *rand.Rand, scale int, out string, shards int, seed int64, corpu
 			sum.note(pc.In, rec.Obs)
 			if e.val != "" {
 				sum.Faults["planted-value:"+m]++
+			} else if e.text != "" {
+				sum.Faults["planted-glued:"+m]++
 			} else {
 				sum.Faults["planted:"+m]++
 			}
